@@ -42,6 +42,7 @@ def gen_cases(prop, tier, seed):
     for i, c in enumerate(cases):
         c["id"] = "%s-%05d" % (c["entry"], i)
         c["ru"] = True if prop == "C02" else bool(stable_hash(c["seed"], "ru") % 2)
+        c["kwv"] = [0, 0, 1, 2, 3][stable_hash(c["seed"], "kwv") % 5]      # call variant: default / pre-fitted / weights
     return cases
 
 
@@ -77,7 +78,7 @@ def run_case(desc, prop):
         return {"status": "skip", "skip_reason": why}
     e = c.entry
     qs = e.make(c.strategy_seed)
-    kw = poolcase.call_kwargs(c, return_utilities=desc["ru"])
+    kw = poolcase.call_kwargs(c, return_utilities=desc["ru"], variant=desc.get("kwv", 0))
     contracts.drain()
     viol = []
     exc = None
@@ -135,7 +136,7 @@ def run_case(desc, prop):
     observed.update(poolcase.cell_summary(c))
     res = {"status": "ok", "violations": viol, "observed": observed, "cells": cells,
            "nontrivial": bool(nontrivial),
-           "nt_key": "%s|%s|%s|%s|%s|n%d|k%d" % (e.name, c.cmode, c.batch, c.data, c.labels, c.n, c.k),
+           "nt_key": "%s|%s|%s|%s|%s|n%d|k%d|v%d" % (e.name, c.cmode, c.batch, c.data, c.labels, c.n, c.k, desc.get("kwv", 0)),
            "monitors": contracts.drain_evals(),
            "counters": {"nested_calls_checked": sum(1 for r in recs if r["depth"] > 0)}}
     return res
